@@ -118,5 +118,22 @@ theorem cubeQuads_outward {w h d : ℝ} (hw : 0 < w) (hh : 0 < h) (hd : 0 < d) :
     OutwardAt (cubeQuadsPos w h d) O3 cubeQuadsTris :=
   cubeQuads_outward_aux hw hh hd
 
+/-- **capped cylinder faces point outward**, all `sides ≥ 3`, every radius and height `> 0`: side triangles have
+    signed volume `h·r²·sin(2π/sides)/6`, cap triangles `h·r²·sin(2π/sides)/12`, against the centre.
+    (Positions: side and top cap as computed by cylinder.go / circle.go, bottom cap in the exact form of the
+    rotation by π about X.) -/
+theorem cylinder_outward {sides : Nat} {r H : ℝ} (hr : 0 < r) (hH : 0 < H) (hS : 3 ≤ sides) :
+    OutwardAt (cylinderPos r H sides) O3 (cylinderTris sides false false) :=
+  cylinder_outward_aux hr hH hS
+
+/-- **cylinder normals**: the side normals `(cos a, ±0.1, sin a).Normalized()` and the cap normals `(0, ±1, 0)` have
+    positive dot product with the geometric normal of every incident face -/
+theorem cylinder_normals_outward {sides : Nat} {r H : ℝ} (hr : 0 < r) (hH : 0 < H) (hS : 3 ≤ sides) :
+    NormalsOutward (cylinderPos r H sides) (cylinderNormal sides) (cylinderTris sides false false) :=
+  cylinder_normals_outward_aux hr hH hS
+
+example : OutwardAt (cylinderPos (1 : ℝ) 2 3) O3 (cylinderTris 3 false false) :=
+  cylinder_outward (by norm_num) (by norm_num) (by decide)
+
 end C18
 end PolyVerif
